@@ -379,7 +379,7 @@ func TestCheck(t *testing.T) {
 	run.Set("states", states)
 	run.Set("transitions", trans)
 	run.Set("traces_validated_against_impl", trans)
-	run.Set("bounds", map[string]interface{}{"max_blocks": maxN, "difficulties": diffs, "max_batch": maxSeg, "sethead_per_history": 1})
+	run.Set("bounds", map[string]interface{}{"max_blocks": maxN, "difficulties": diffs, "max_batch": maxSeg, "sethead_per_history": 1, "sethead_max_blocks": 4, "mixed_max_blocks": mixedMax(run.Tier)})
 	run.Finish()
 }
 
@@ -491,7 +491,7 @@ outer:
 						}
 					}
 					// one SetHead(m) after every prefix, then the rest of the history
-					for k := 1; k <= len(base); k++ {
+					for k := 1; k <= len(base) && len(s.Parent) <= 4; k++ { // SetHead variants on trees of <= 4 blocks
 						for m := 0; m <= maxH+1; m++ {
 							mm := m
 							ops := append(append(append([]Op(nil), base[:k]...), Op{SetHead: &mm}), base[k:]...)
